@@ -1078,6 +1078,9 @@ class ComputeGraph(MultiDiGraph):
             lambda e: isinstance(e, sp.Function) and e.func.__name__ == 'identity',
             lambda e: e.args[0]
         )
+        # sympy differentiates a power with a symbolic exponent as a*u**a/u, which is 0/0 = nan at u = 0 (e.g. the state
+        # x = 0 of x' = -x**a); written as a*u**(a - 1) the entry has its value there as well
+        expr = sp.powsimp(expr)
         return expr
 
     def _expr_to_jac_str(self, expr, sym_to_y_idx: dict, past_sym_to_str: dict):
